@@ -839,6 +839,31 @@ func (l *Lowerer) simpleMod(lf *lin, w uint8) (string, bool) {
 				return atom, true
 			}
 		}
+		if live > 1 {
+			// several atoms: if the reduced form provably lies in [0, 2^w) it is its own low half
+			lo, hi, known := new(big.Int).Set(r.k), new(big.Int).Set(r.k), true
+			for _, n := range r.order {
+				c := r.terms[n]
+				if c.Sign() == 0 {
+					continue
+				}
+				iv, ok := l.atomIv[n]
+				if !ok {
+					known = false
+					break
+				}
+				if c.Sign() > 0 {
+					lo.Add(lo, new(big.Int).Mul(c, iv[0]))
+					hi.Add(hi, new(big.Int).Mul(c, iv[1]))
+				} else {
+					lo.Add(lo, new(big.Int).Mul(c, iv[1]))
+					hi.Add(hi, new(big.Int).Mul(c, iv[0]))
+				}
+			}
+			if known && lo.Sign() >= 0 && hi.Cmp(maxOfW(w)) <= 0 {
+				return r.render(), true
+			}
+		}
 		next := newLin()
 		next.k.Set(r.k)
 		changed := false
